@@ -169,7 +169,8 @@ PROPS = {
     'C18': dict(
         rules=[r_tables.s18_source_tables, r_tables.s18b_clv_zero_range, r_tables.s18c_validate_boxes, r_tables.s18d_sequence_validate, r_tables.s06_ma_dispatch, r_conv.s19b_same_name_wiring,
                lambda ctx: r_absint.a01_constructors(ctx, groups=('parser',), rule_id='A01p', min_entries=4,
-                   title='Source::from_str, MA::from_str and the TryFrom conversions reach no panic for any text')],
+                   title='Source::from_str, MA::from_str and the TryFrom conversions reach no panic for any text'),
+               r_absint.a01t_parser_truncation],
         feature_sets=_sets(['default']),
         rules_thorough=[on_build(r_tables.s18_source_tables, 'nodefault'), on_build(r_tables.s06_ma_dispatch, 'nodefault')],
         explanation=('(S18) Source: the literal->variant table of from_str and the variant->literal table of Into<&str> are extracted from '
@@ -178,7 +179,7 @@ PROPS = {
                      'accessor named G(kind) and returns it unchanged. (S06) MA: from_str maps lowercase(kind) to the kind with the parsed '
                      'period and rejects other names. (S18b) clv\'s zero-range guard returns the documented constant. (S19b) every OHLCV accessor of a derived candle type (HeikinAshi, Renko bricks, ...) '
                      'that shares a name with a field reads that field (or the documented max/min of open and close). (S18c) OHLCV::validate is interpreted abstractly on boxes of candles, its five required accessors standing for '
-                     'any value of the box: a non-positive, NaN or infinite value of any one price, or a negative volume, is rejected whatever the other fields are; unordered boxes are rejected; ordered positive finite boxes with volume >= 0 or NaN are accepted. (S18d) Sequence::validate for values and for candles is `all(is_finite)` / `all(OHLCV::validate)` over the whole of self.as_ref().'),
+                     'any value of the box: a non-positive, NaN or infinite value of any one price, or a negative volume, is rejected whatever the other fields are; unordered boxes are rejected; ordered positive finite boxes with volume >= 0 or NaN are accepted. (S18d) Sequence::validate for values and for candles is `all(is_finite)` / `all(OHLCV::validate)` over the whole of self.as_ref(). (A01t) no parser narrows a parsed number with a lossy cast.'),
         not_decided=['numeric identities (tp, hl2, ohlc4, clv, true range), the ordering clause of validate beyond the three disjoint boxes S18c runs, associativity of +: '
                      'statements about float values for all candles, not decided',
                      'str::parse of the numeric period is trusted to be total (std)'],
@@ -283,14 +284,15 @@ PROPS = {
     ),
     'C04': dict(
         rules=[lambda ctx: r_mirror.s04_mirror_siblings(ctx, which=('highest_lowest::Highest', 'highest_lowest_index::HighestIndex')),
-               r_mirror.s05_mixed_float_equivalence,
+               r_mirror.s05_mixed_float_equivalence, r_mirror.s04b_full_window_scans,
                lambda ctx: r_step.s07_step_once(ctx, only_types=('Highest', 'Lowest', 'HighestLowestDelta', 'HighestIndex', 'LowestIndex', 'SMM', 'MedianAbsDev'), rule_id='S07s')],
         feature_sets=_sets(['default']),
         explanation=('(S04) Lowest / LowestIndex are the HIR mirror image of Highest / HighestIndex (new, next, peek) under the swap >=/<=, '
                      '>/< on float operands and max/min: the min-side behaviour is the mirrored max-side behaviour, ties included. (S05) every '
                      'to_bits() equality site is enumerated; a function that compares the same pair of floats by bits and by numeric order '
                      'while steering a search (recursion / fn pointer / loop) is reported: the relations disagree on signed zeros. (S07s) on every '
-                     'normally returning path of next() the selection methods push the new value into their window exactly once and step each owned sub-method exactly once.'),
+                     'normally returning path of next() the selection methods push the new value into their window exactly once and step each owned sub-method exactly once. '
+                     '(S04b) their rescans iterate over the complete window: no skipping, truncating or filtering adaptor.'),
         not_decided=['that the max-side algorithms (cached extremum + rescan trigger, age counter, sorted-slice shifting) compute the maximum, '
                      'its age and the median for every order pattern: behaviour over all streams, not decided',
                      'the two halves of HighestLowestDelta::next are not compared'],
@@ -299,7 +301,7 @@ PROPS = {
         level_text='Mirror and signed-zero clauses only; exactness of the selection algorithms is not claimed.',
     ),
     'C17': dict(
-        rules=[r_conv.s19a_collapse_discipline, r_conv.s19b_same_name_wiring, r_window.s01b_pos_len_iterators,
+        rules=[r_conv.s19a_collapse_discipline, r_conv.s19b_same_name_wiring, r_conv.s19c_high_low_mirror, r_window.s01b_pos_len_iterators,
                lambda ctx: r_absint.a01_constructors(ctx, groups=('method-new',), labels=('Renko::new', 'CollapseTimeframe::new', 'HeikinAshi::new'), rule_id='A01r', min_entries=3,
                    title='Renko::new, CollapseTimeframe::new, HeikinAshi::new reach no panic for any parameter value'),
                lambda ctx: r_absint.a02_next_with_facts(ctx, only=('Renko',), strict_module='methods::renko', rule_id='A02r')],
@@ -309,7 +311,8 @@ PROPS = {
                      'the accumulator; accumulation is accumulator + candle (in that order); new rejects period 0. (S19b) Candle + T takes open '
                      'from the left operand only, close from the right only, high/low through max/min of both, volume through +; every OHLCV '
                      'accessor, Candle::from, HLC::from and the tuple conversions wire each component to the same-named / same-position '
-                     'component; the batch collapse folds with the same Add.'),
+                     'component; the batch collapse folds with the same Add. (S19c) every candle literal that computes both `high` and `low` (HeikinAshi::next, Candle + T, Candle::from) computes them by '
+                     'mirror-image expressions: a clamp present on one side and missing on the other yields a candle whose body leaves its own range.'),
         not_decided=['Heikin-Ashi recursion and output validity, Renko brick contiguity/sizing/volume conservation: numeric, not decided',
                      'A02r decides "Renko::next never panics" for integer arithmetic, casts and indexing with every float unconstrained; float results themselves are not bounded'],
         assumptions=TRUST,
